@@ -40,7 +40,18 @@ def der_whole_value(prog, chk):
                 return TOP
             I.write(p, key, Off(cur.base, cur.off + D))
             return Ptr("P7")
-        ov = {"d2i_PKCS7": d2i, "KSI_malloc": lambda I, p, n, a: Ptr("NEW"), "KSI_calloc": lambda I, p, n, a: Ptr("NEW"), "KSI_PKISignature_free": lambda I, p, n, a: TOP, "PKCS7_free": lambda I, p, n, a: TOP}
+        released = []
+
+        def sigfree(I, p, node, args):
+            # the destructor releases the PKCS#7 object its argument holds at that moment
+            if isinstance(args[0], Ptr):
+                released.append(I.read(p, "%s->pkcs7" % args[0].what))
+            return TOP
+
+        def p7free(I, p, node, args):
+            released.append(args[0])
+            return TOP
+        ov = {"d2i_PKCS7": d2i, "KSI_malloc": lambda I, p, n, a: Ptr("NEW"), "KSI_calloc": lambda I, p, n, a: Ptr("NEW"), "KSI_PKISignature_free": sigfree, "PKCS7_free": p7free}
         inputs = {cp: Ptr("ctx"), rp: Ptr("RAW"), lp: L, sp: Ptr("OUT")}
         I = BufInterp(fn, {"RAW": L}, inputs=inputs, call_model=succeed_model(prog, ov), on_unknown="stop", prog=prog)
         paths = I.run()
@@ -52,9 +63,12 @@ def der_whole_value(prog, chk):
         out = [x[2] for x in q.stores("OUT")] + [x[2] for x in q.stores("*" + sp)]
         handed = any(v not in (0, None) for v in out)
         want = D is not None and D == L
-        ok = (q.ret == 0 and handed) if want else (q.ret not in (0, TOP) and not handed)
-        chk.ob("C18.der", inst, ok, "expected %s; source: status %s, object handed out: %s"
-               % ("an object and KSI_OK" if want else "an error and no object", hex(q.ret) if isinstance(q.ret, int) else q.ret, handed),
+        decoded = D is not None
+        kept = released.count(Ptr("P7"))
+        ok = (q.ret == 0 and handed and kept == 0) if want else (q.ret not in (0, TOP) and not handed and kept == (1 if decoded else 0))
+        chk.ob("C18.der", inst, ok, "expected %s; source: status %s, object handed out: %s, decoded object released %d time(s)"
+               % ("an object and KSI_OK" if want else "an error, no object" + (", the decoded PKCS#7 released once" if decoded else ""),
+                  hex(q.ret) if isinstance(q.ret, int) else q.ret, handed, kept),
                loc=fn.loc(), fn=fn, nontrivial=(D is not None and D != L))
 
 
